@@ -3,7 +3,7 @@ CONSTANTS
   Instr = {"i2"}
   Asset = {"a0"}
   PnLs <- PnLsQuick
-  Costs = {5, 10}
+  Costs = {10}
   Bals = {5}
   Vals = {}
   MaxClosed = 5
